@@ -369,6 +369,25 @@ pub fn run(ctx: &mut Ctx) {
             b.extend_from_slice(&(n3.len() as u16 + 6).to_be_bytes());
             b.extend_from_slice(&[0, 0, 0, 0, 0, 80]);
             b.extend_from_slice(&n3);
+            // a label that *contains* dots and spells the text of another name of the message ("x.b.local" as one label next to
+            // the name b.local): text-level shortcuts see a subdomain where the labels say otherwise
+            {
+                let other: Vec<&str> = super::c17::vocab_name((idx / n) % total).unwrap();
+                let dotted = format!("{}.{}", ["x", "a", "_x", "X"][(idx % 4) as usize], other.join("."));
+                if dotted.len() <= 63 {
+                    let mut owner = vec![dotted.len() as u8];
+                    owner.extend_from_slice(dotted.as_bytes());
+                    if idx % 3 == 0 {
+                        owner.extend_from_slice(&[5]);
+                        owner.extend_from_slice(b"local");
+                    }
+                    owner.push(0);
+                    b.extend_from_slice(&owner);
+                    b.extend_from_slice(&[0, 1, 0, 1, 0, 0, 0, 9, 0, 4, 10, 0, 0, 1]);
+                    b[7] += 1;
+                    ctx.add("messages_with_a_dotted_label_spelling_another_name", 1);
+                }
+            }
             ctx.add("well_known_label_messages", 1);
             if !observe_all(ctx, "vocab-names", idx, &b) {
                 ctx.count("vocab_generated_but_rejected");
